@@ -9,6 +9,9 @@ package messagequeue
 // and a cancel removes it from both
 //@ macro wfRecall(r) = r != nil && r.pending != nil && r.sent != nil && r.pending != r.sent && r.pending.set != nil && r.sent.set != nil && r.pending.set != r.sent.set && r.sentAt != nil
 //@ macro wanted(r, c) = has(r.pending.set, c) || has(r.sent.set, c)
+// the strongest requested type is want-block: once some list holds a want-block for c, no bookkeeping
+// step other than a cancel may leave c with want-have only
+//@ macro wantsBlock(r, c) = (has(r.pending.set, c) && r.pending.set[c].WantType == pb.Message_Wantlist_Block) || (has(r.sent.set, c) && r.sent.set[c].WantType == pb.Message_Wantlist_Block)
 //@ func (*recallWantlist).add
 //@   prop C35
 //@   arith int
@@ -16,6 +19,7 @@ package messagequeue
 //@   modifies mapof(r.pending.set), r.pending.cached
 //@   ensures[pending_afterwards] has(r.pending.set, c)
 //@   ensures[sent_list_untouched] has(r.sent.set, c) == old(has(r.sent.set, c))
+//@   ensures[strongest_type_kept] old(wantsBlock(r, c)) || wtype == pb.Message_Wantlist_Block ==> wantsBlock(r, c)
 //@ func (*recallWantlist).remove
 //@   prop C35
 //@   arith int
@@ -36,6 +40,9 @@ package messagequeue
 //@   requires[wf] wfRecall(r)
 //@   modifies mapof(r.pending.set), r.pending.cached, mapof(r.sent.set), r.sent.cached
 //@   ensures[a_want_is_never_lost] old(wanted(r, e.Cid)) ==> wanted(r, e.Cid)
+// (want types are the two values of the protobuf enum: an input invariant)
+//@   requires[valid_type] e.WantType == pb.Message_Wantlist_Block || e.WantType == pb.Message_Wantlist_Have
+//@   ensures[strongest_type_kept] old(wantsBlock(r, e.Cid)) ==> wantsBlock(r, e.Cid)
 //@   ensures[marked_means_sent] result ==> has(r.sent.set, e.Cid) && !has(r.pending.set, e.Cid)
 //@   ensures[not_pending_not_marked] !old(has(r.pending.set, e.Cid)) ==> !result && has(r.sent.set, e.Cid) == old(has(r.sent.set, e.Cid))
 //@   ensures[sent_type_at_least_as_strong] result && e.WantType == pb.Message_Wantlist_Block ==> r.sent.set[e.Cid].WantType == pb.Message_Wantlist_Block
